@@ -33,6 +33,11 @@ def isUnderscore (x : Seg) : Bool := x.s == "_" && x.unq
 
 def rootSeg : Seg := { s := "root", unq := true }
 
+/-- `d2format.Format(kp)` lower-cases unquoted reserved keywords of the key path it prints; of those only the three
+    board keywords are modelled (the generator uses no other reserved word as a board or object name) -/
+def formatSeg (x : Seg) : Seg := if x.unq && isKindFold x then { x with s := lowerAscii x.s } else x
+
+
 /-- the scope-chopping loop: scan `i = len-1 … 1` -/
 def chopScope (scope : List Seg) : List Seg :=
   let rec go : Nat → List Seg
@@ -70,7 +75,7 @@ def compileLink (scope link : List Seg) : Option (List Seg) :=
       let sc := chopScope scope
       let (sc, lk) := popUnderscores link.length sc link
       let sc := if sc.isEmpty then [rootSeg] else sc
-      some (sc ++ lk)
+      some ((sc ++ lk).map formatSeg)
 
 /-- `extendLinks` for one link of an imported map: `importIDA` is the IDA of the importing field, `link` the value the
     imported file's own compilation stored (its first element — the imported file's `root` — is replaced by the
@@ -81,10 +86,13 @@ def extendTail : List Seg → List Seg → List Seg
     else imp ++ (x :: rest)
   | imp, [] => imp
 
-def extendLink (importIDA link : List Seg) : List Seg :=
+def extendLinkRaw (importIDA link : List Seg) : List Seg :=
   match link with
   | [] => []
   | _ :: tail => extendTail importIDA tail
+
+/-- … printed with `d2format.Format` like every stored link -/
+def extendLink (importIDA link : List Seg) : List Seg := (extendLinkRaw importIDA link).map formatSeg
 
 /-! ### validation against the board tree -/
 
